@@ -21,6 +21,15 @@
      {ev:"Rw", vis:[[kid, vid, newvid]...], o}      IterateKV with a rewriting callback
      {ev:"Reset", o}            {ev:"Reopen", o}
      {ev:"Panic", t, in, msg, sbo, reinit}          the call `in` panicked; the trace ends here
+   Bulk traces (large trees; the harness compares Get of EVERY key id with the trivially known expected
+   value and classifies every IterateKV callback - a byte-level monitor - and records only counts):
+     c = {gbad: number of key ids whose Get differs from the expected value (0 for absent keys), first,
+          itn / itdup / itwrong: IterateKV callbacks in total / for a key already visited / not a live
+          pair, itv: [first visits of a live pair, per value id], st, dl, cl, n, grows, rsplit, rsr}
+     {ev:"BNew", t, u, w, ps, mk, pers, src, ms, c}      in a bulk trace m[v] = number of live keys with value id v
+     {ev:"BSet", add:[number of new keys per value id], c}     {ev:"BDel", ts, c}     {ev:"BReopen", c}
+   Panic events also carry fault (memory fault), frame (innermost method of Tree on the panicking stack)
+   and moved (the capacity of t.data changed during the call).
    Known-finding signatures are decided HERE (the `why` text), from the recorded facts only.   *)
 EXTENDS Integers, FiniteSets, Sequences, TLC, Json
 
@@ -77,6 +86,13 @@ Drift(e, t, op) == IF "wb" \in DOMAIN e /\ t.err = "none"
                      ELSE {}
 \* the model is dropped (until the next New) once it has disagreed or cannot follow
 PmNext(e, t) == IF "wb" \in DOMAIN e /\ t.err = "none" /\ WbSame(e.wb, t) THEN t ELSE [err |-> "off"]
+
+(* ------------------------------ bulk checkpoints ------------------------------ *)
+BGetOK(c)       == c.gbad = 0
+BIterOK(c, lv) == c.itdup = 0 /\ c.itwrong = 0 /\ c.itv = lv
+BJudge(op, c, lv) ==
+     MapBad(BGetOK(c), op \o ": Get does not return the value last set (or 0 for an absent key)")
+     \cup MapBad(BIterOK(c, lv), op \o ": IterateKV does not visit every live pair exactly once")
 
 (* ------------------------------ one event ------------------------------ *)
 Step(e) ==
@@ -165,12 +181,39 @@ Step(e) ==
          /\ m' = Shown(e.o) /\ st' = e.o.st
          /\ nd' = Drift(e, t, "Reopen") /\ pm' = PmNext(e, t)
          /\ UNCHANGED <<tid, u, pers, dead>>
+    [] e.ev = "BNew" ->
+         LET lv == [v \in 1..e.w |-> 0] IN
+         /\ tid' = e.t /\ u' = e.u /\ pers' = e.pers /\ reopened' = FALSE /\ dead' = FALSE
+         /\ m' = lv /\ st' = e.c.st /\ pm' = [err |-> "off"] /\ nd' = {}
+         /\ nb' = { [r EXCEPT !.trace = e.t] : r \in BJudge("New", e.c, lv) }
+    [] e.ev = "BSet" /\ ~dead ->
+         LET lv == [v \in 1..Len(m) |-> m[v] + e.add[v]] IN
+         /\ nb' = BJudge("Set", e.c, lv)
+         /\ m' = lv /\ st' = e.c.st /\ nd' = {}
+         /\ UNCHANGED <<tid, u, pers, reopened, dead, pm>>
+    [] e.ev = "BDel" /\ ~dead ->
+         LET lv == [v \in 1..Len(m) |-> IF v < e.ts THEN 0 ELSE m[v]] IN
+         /\ nb' = (IF BGetOK(e.c) THEN {} ELSE MapBad(FALSE, "DeleteBelow: did not remove exactly the keys whose value is below the threshold"))
+                  \cup MapBad(BIterOK(e.c, lv), "DeleteBelow: IterateKV does not visit every live pair exactly once")
+         /\ m' = lv /\ st' = e.c.st /\ nd' = {}
+         /\ UNCHANGED <<tid, u, pers, reopened, dead, pm>>
+    [] e.ev = "BReopen" /\ ~dead ->
+         /\ nb' = Flag(BGetOK(e.c) /\ BIterOK(e.c, m), "C16",
+                        "Reopen: the reopened tree does not hold the same key-value mapping")
+                  \cup Flag(StatsSame(st, e.c.st), "C16",
+                            "Reopen: key-count / page statistics differ from those before Close")
+         /\ reopened' = TRUE /\ st' = e.c.st /\ nd' = {}
+         /\ UNCHANGED <<tid, u, pers, dead, m, pm>>
     [] e.ev = "Panic" /\ ~dead ->
          /\ nb' =
               (IF e.in = "Reopen"
                  THEN (IF e.sbo /\ e.reinit
                          THEN {Rec("C16", "Reopen: panic, slice bounds out of range inside reinit")}
                          ELSE {Rec("C16", "Reopen: panic")})
+                 \* signature of finding F10: a memory fault raised in Tree.Set itself (its root-split path; not in
+                 \* set / split / newNode) on a file-backed tree, during a Set in which the file was extended
+                 ELSE IF e.in = "Set" /\ pers /\ e.fault /\ e.moved /\ e.frame = "Set"
+                   THEN MapBad(FALSE, "Set: memory fault in Tree.Set's root split after the file mapping moved")
                  ELSE MapBad(FALSE, e.in \o ": panic"))
          /\ dead' = TRUE /\ pm' = [err |-> "off"]
          /\ nd' = {}
